@@ -30,7 +30,7 @@
    MaxInt64 is a negative offset, which ReadAt rejects.
 
    Node invariant of ParseBTreeV1Node: len(Children) = EntriesUsed and len(Keys) = EntriesUsed + 1 (or both empty
-   when EntriesUsed = 0).  The loops `for i := 0; i < int(node.EntriesUsed); i++ { node.Keys[i] .. node.Children[i] }`
+   when EntriesUsed = 0; EntriesUsed = 65535 never yields a node, see parse_entries).  The loops `for i := 0; i < int(node.EntriesUsed); i++ { node.Keys[i] .. node.Children[i] }`
    of collectAllChunks are therefore structural over the children list here (Proofs/ChunkIndex.v parse_node_shape).
    int arithmetic on sizes (keySize, dataSize <= 65535 * (8 + 8*255 + 255) + ..) cannot overflow 64 bits and is left
    unwrapped; uint64 address arithmetic is wrapped.
@@ -181,8 +181,10 @@ Fixpoint parse_coords (n : nat) (cs : list N) (data : bytes) (off : N) : outcome
       end
   end.
 
-(* for i := 0; i <= EntriesUsed; i++: key i, and child i when i < EntriesUsed; k = EntriesUsed - i *)
-Fixpoint parse_entries (k : nat) (ndims : nat) (osz : N) (cdims : list N) (data : bytes) (off : N)
+(* for i := 0; i <= EntriesUsed; i++: key i, and child i when i < EntriesUsed; k = EntriesUsed - i.
+   klen = len(node.Keys): Keys is made with EntriesUsed+1 elements COMPUTED IN uint16, so for EntriesUsed = 65535 it is
+   empty and `node.Keys[i] = key` is an index panic in the first iteration (after key 0 has been decoded). *)
+Fixpoint parse_entries (k : nat) (i klen : N) (ndims : nat) (osz : N) (cdims : list N) (data : bytes) (off : N)
   : outcome (list ckey * list N) :=
   let keySize := 8 + 8 * N.of_nat ndims in
   if blen data <? off + keySize then Err
@@ -190,6 +192,8 @@ Fixpoint parse_entries (k : nat) (ndims : nat) (osz : N) (cdims : list N) (data 
     nb <- rd_le data off 4;;
     fm <- rd_le data (off + 4) 4;;
     sc <- parse_coords ndims cdims data (off + 8);;
+    if klen <=? i then Panic
+    else
     let off' := off + keySize in
     match k with
     | O => Ok ([(sc, nb, fm)], [])
@@ -198,7 +202,7 @@ Fixpoint parse_entries (k : nat) (ndims : nat) (osz : N) (cdims : list N) (data 
         else
           tl <- slice_from data off';;
           let child := read_address tl osz in
-          r <- parse_entries k' ndims osz cdims data (off' + osz);;
+          r <- parse_entries k' (i + 1) klen ndims osz cdims data (off' + osz);;
           Ok ((sc, nb, fm) :: fst r, child :: snd r)
     end.
 
@@ -224,7 +228,7 @@ Definition parse_node (f : bytes) (address osz : N) (ndims : nat) (cdims : list 
           match read_bytes_at f (wrap64 (address + headerSize)) dataSize with
           | None => Err
           | Some data =>
-              r <- parse_entries (N.to_nat eu) ndims osz cdims data 0;;
+              r <- parse_entries (N.to_nat eu) 0 (wrap16 (eu + 1)) ndims osz cdims data 0;;
               Ok (mk_bnode ty lv eu left right (fst r) (snd r))
           end
   end.
@@ -384,11 +388,12 @@ Fixpoint distinct_coords (es : list wentry) : bool :=
   | e :: r => negb (existsb (fun x => coords_eqb (w_coord x) (w_coord e)) r) && distinct_coords r
   end.
 
-(* preconditions of the index round trip: non-empty, well-formed entries, different coordinates, the entry count
-   fits the 16-bit field, positive chunk extents of the same rank, and the node ends below 2^63 *)
+(* preconditions of the index round trip: non-empty, well-formed entries, different coordinates, at most 65534
+   entries (65535: the reader panics, 65536 and more: the 16-bit count wraps; Proofs/ChunkIndex.v index_*_refuted),
+   positive chunk extents of the same rank, and the node ends below 2^63 *)
 Definition index_pre (cdims : list N) (es : list wentry) (eof : N) : bool :=
   negb (Nat.eqb (length es) 0) && forallb (entry_ok (length cdims)) es && distinct_coords es
-  && (N.of_nat (length es) <? 65536) && all_pos cdims
+  && (N.of_nat (length es) <? 65535) && all_pos cdims
   && (eof + blen (serialize_leaf (length cdims) es) <=? MAXINT64).
 
 (* the entries writeChunkedData builds for a data set, by the chunk loop from the end of file eof0 *)
